@@ -54,7 +54,7 @@ func c09Oracle(e *Env, s *vsched.Sched) []Finding {
 		if r.Thread == 0 || r.Skipped || r.Panic != nil {
 			continue
 		}
-		if r.Err != nil && !strings.Contains(r.Class, "disposed") {
+		if r.Err != nil && !strings.Contains(r.Class, "disposed") && !strings.Contains(r.Class, "injected") {
 			out = append(out, Finding{feat("clause", "undocumented-error", "op", r.Op.Kind, "class", r.Class),
 				fmt.Sprintf("%s returned %q, which is not one of the documented errors for concurrent use", r.Op, r.Err)})
 		}
@@ -129,6 +129,19 @@ func init() {
 					} else if isCore {
 						add([]string{c09Names[i], c09Names[j]}, true, 1)
 					}
+				}
+			}
+			// three resolvers of one scoped service, the first construction failing (the waiter retries while a third arrives)
+			{
+				sc := c09Scenario([]string{"get-scoped", "get-scoped", "get-scoped"}, false)
+				sc.Name = "program/get-scoped-x3-first-fails"
+				sc.Spec.Regs[1].Err = true
+				sc.Faults = map[string]string{"1:1": "err"}
+				for sh := 0; sh < 4; sh++ {
+					sh := sh
+					jobs = append(jobs, mc.Job{Name: fmt.Sprintf("%s#%d", sc.Name, sh), Weight: 30, Run: func(r *mc.Report) {
+						exploreScenario(r, sc, mc.Bounds{Preempt: 2, Shard: sh, NShards: 4}, c09Oracle)
+					}})
 				}
 			}
 			if tier == "thorough" {
